@@ -563,6 +563,7 @@ func runC18(ctx *core.Ctx) {
 	c18Raw(ctx)
 	c18Files(ctx)
 	c18Octal(ctx)
+	c18Rename(ctx)
 	c18Coverage(ctx)
 }
 
